@@ -110,10 +110,20 @@ def generate(streams: core.Streams, tier: str) -> dict:
     # placeholder variant (drawn after the specs): the rules' value is a placeholder that every user pipeline
     # can resolve from the variables - which are those of the *composed* pipeline, later ones overriding
     ph = (not rich) and gen.chance(w, 0.3)
+    phlist = ph and gen.chance(w, 0.5)
     if ph:
         for i, sp in enumerate(specs):
             sp["vars"].setdefault("v", f"p{i}")
+            if phlist:  # list valued: a later pipeline's list replaces an earlier one's, it is not merged with it
+                sp["vars"]["v"] = [f"p{i}a", f"p{i}b"]
             sp["transformations"].insert(0, {"type": "value_placeholders", "include": ["v"]})
+    # rules with two conditions: two queries per rule, each post-processed on its own
+    multi = (not rich) and gen.chance(w, 0.25)
+    # post-processing items with explicit identifiers
+    for sp in specs:
+        for t in sp.get("postprocessing", []):
+            if gen.chance(w, 0.5):
+                t["id"] = "pp" + sp["name"]
     backend_pipeline = {"vars": {"v": "B", "kB": "B"},
                         "transformations": [{"type": "field_name_prefix", "prefix": "B."},
                                             {"type": "set_state", "key": "index", "val": "B"}],
@@ -181,7 +191,7 @@ def generate(streams: core.Streams, tier: str) -> dict:
         # an older composite or an operand, after later compositions took over (some of) its items
         ops.append({"op": gen.pick(s, ["Check", "CheckDirect", "CheckDirect"]), "src": gen.pick(s, regs + names),
                     "format": gen.pick(s, ["default", "alt", None, "doc"])})
-    return {"rich": rich, "ph": ph, "specs": specs, "backend_pipeline": backend_pipeline,
+    return {"rich": rich, "ph": ph, "multi": multi, "specs": specs, "backend_pipeline": backend_pipeline,
             "format_pipeline": format_pipeline, "default_format_pipeline": default_format_pipeline, "ops": ops}
 
 
@@ -259,6 +269,15 @@ def _applies(item: dict, product: str) -> bool:
     return True
 
 
+def _user_expr(sc: dict, merged: dict, prefix: str) -> str:
+    """the rule's only detection item as SimBackend renders it (a list value is an OR of the values)"""
+    if not sc.get("ph"):
+        return f'{prefix}User="x"'
+    v = merged.get("v")
+    vals = v if isinstance(v, list) else [v]
+    return " OR ".join(f'{prefix}User="{x}"' for x in vals)
+
+
 def predict(sc: dict, idx: list[int], fmt: str) -> Any:
     """Oracle A: the complete conversion output predicted from the specs alone."""
     chain = [sc["backend_pipeline"]] + [sc["specs"][i] for i in idx] + ([sc["format_pipeline"]] if fmt == "alt" else [])
@@ -278,19 +297,19 @@ def predict(sc: dict, idx: list[int], fmt: str) -> Any:
                     prefix = t["prefix"] + prefix
                 elif t["type"] == "set_state":
                     index = t["val"]
-        val = str(merged.get("v")) if sc.get("ph") else "x"
-        q = f'<{title}> {prefix}User="{val}" | idx={index} | fields=[]'
-        if fmt == "alt":
-            q = f"ALT#0[{q}]"
-        for p in chain:
-            for t in p.get("postprocessing", []):
-                if not _applies(t, product):
-                    continue
-                if t["type"] == "embed":
-                    q = t["prefix"] + q + t["suffix"]
-                elif t["type"] == "template":
-                    q = q + " ~V=" + str(merged.get("v", ""))
-        queries.append(q)
+        for qi in range(2 if sc.get("multi") else 1):
+            q = f'<{title}> {_user_expr(sc, merged, prefix)} | idx={index} | fields=[]'
+            if fmt == "alt":
+                q = f"ALT#{qi}[{q}]"
+            for p in chain:
+                for t in p.get("postprocessing", []):
+                    if not _applies(t, product):
+                        continue
+                    if t["type"] == "embed":
+                        q = t["prefix"] + q + t["suffix"]
+                    elif t["type"] == "template":
+                        q = q + " ~V=" + str(merged.get("v", ""))
+            queries.append(q)
     out: Any = queries
     if fmt == "doc":
         out = " ## ".join(queries)  # the format renders one document; the finalizers get that
@@ -308,7 +327,6 @@ def predict_direct(sc: dict, idx: list[int]) -> Any:
     merged: dict[str, Any] = {}
     for p in chain:
         merged.update(p.get("vars", {}))
-    val = str(merged.get("v")) if sc.get("ph") else "x"
     queries, states = [], []
     for title, product in TITLES:
         prefix, state = "", {}
@@ -320,12 +338,13 @@ def predict_direct(sc: dict, idx: list[int]) -> Any:
                     prefix = t["prefix"] + prefix
                 elif t["type"] == "set_state":
                     state[t["key"]] = t["val"]
-        q = f'{prefix}User="{val}"'
-        for p in chain:
-            for t in p.get("postprocessing", []):
-                if _applies(t, product) and t["type"] == "embed":
-                    q = t["prefix"] + q + t["suffix"]
-        queries.append(q)
+        for _qi in range(2 if sc.get("multi") else 1):
+            q = _user_expr(sc, merged, prefix)
+            for p in chain:
+                for t in p.get("postprocessing", []):
+                    if _applies(t, product) and t["type"] == "embed":
+                        q = t["prefix"] + q + t["suffix"]
+            queries.append(q)
         states.append(state)
     out: Any = queries
     for p in chain:
@@ -339,9 +358,10 @@ def predict_direct(sc: dict, idx: list[int]) -> Any:
 # worlds
 
 
-def _docs(ph: bool = False) -> list[dict]:
+def _docs(ph: bool = False, multi: bool = False) -> list[dict]:
     item = {"User|expand": "%v%"} if ph else {"User": "x"}
-    return [{"title": t, "logsource": {"product": p}, "detection": {"sel": dict(item), "condition": "sel"}}
+    return [{"title": t, "logsource": {"product": p},
+             "detection": {"sel": dict(item), "condition": ["sel", "sel"] if multi else "sel"}}
             for t, p in TITLES]
 
 
@@ -366,7 +386,7 @@ def _convert(sc: dict, cls: Any, pipeline: Any, fmt: str) -> dict:
     from sigsim import world
 
     b = cls(pipeline)
-    return world.capture(lambda: b.convert(world.load_collection(_docs_rich() if sc["rich"] else _docs(bool(sc.get("ph")))), fmt))
+    return world.capture(lambda: b.convert(world.load_collection(_docs_rich() if sc["rich"] else _docs(bool(sc.get("ph")), bool(sc.get("multi")))), fmt))
 
 
 def _direct(sc: dict, pipeline: Any) -> dict:
@@ -375,7 +395,7 @@ def _direct(sc: dict, pipeline: Any) -> dict:
     from sigsim import simbackend, world
 
     def run() -> Any:
-        coll = world.load_collection(_docs_rich() if sc["rich"] else _docs(bool(sc.get("ph"))))
+        coll = world.load_collection(_docs_rich() if sc["rich"] else _docs(bool(sc.get("ph")), bool(sc.get("multi"))))
         states, queries = [], []
         for rule in coll.rules:
             pipeline.apply(rule)
@@ -512,7 +532,7 @@ def execute(scenario: dict) -> dict:
                         objs["long"] = cls(None)
                     lb = objs["long"]
                     lb.processing_pipeline = o
-                    got = world.capture(lambda: lb.convert(world.load_collection(_docs_rich() if sc["rich"] else _docs(bool(sc.get("ph")))), op["format"]))
+                    got = world.capture(lambda: lb.convert(world.load_collection(_docs_rich() if sc["rich"] else _docs(bool(sc.get("ph")), bool(sc.get("multi")))), op["format"]))
                     core.merge_counts(faults, {"history:long_lived_backend_gets_another_user_pipeline": 1})
                 elif direct:
                     got = _direct(sc, o)
